@@ -4,9 +4,9 @@ CONSTANTS
   InitHeaps <- MCInit2
   MaxDepth = 1
   Breaks <- BreaksQ
-  Degs <- DegsQ
-  MaxNpts = 5
-  Acts = {"CvSplit"}
+  Degs <- Degs4
+  MaxNpts = 8
+  Acts = {"CvEval"}
   PtKinds = {"gen"}
   WtKinds = {"none", "gen"}
   ExtraNodes <- Extra0
@@ -17,7 +17,7 @@ CONSTANTS
   OtherMaxNpts = 4
 INVARIANT WellFormed
 PROPERTY FailedIsNoOp
-PROPERTY SplitRestricts
+
 ACTION_CONSTRAINT Log
 VIEW View
 CHECK_DEADLOCK FALSE
